@@ -2,9 +2,9 @@
    cs: the components in a topological order, with parsed references; info: what propagate_replicate
    computes; expand_with info cs: the replicated workflow (structured layer).  The textual layer
    (what compile_component_replica does to strings) is tied to it by C03_textual_refines. *)
-From Coq Require Import String List Bool NArith.
+From Coq Require Import String Ascii List Bool NArith.
 Import ListNotations.
-Require Import V.Lib.PyStr V.Repl.Model V.Repl.Proofs V.Repl.Aggregate V.Repl.Dataflow.
+Require Import V.Lib.PyStr V.Repl.Model V.Repl.Proofs V.Repl.Aggregate V.Repl.Dataflow V.Repl.Arguments.
 Open Scope list_scope.
 
 (* The replicated region: a component carries the count n exactly when it requests n replicas itself or
@@ -137,6 +137,25 @@ Theorem C03_textual_dataflow : forall w scs info tout,
 Proof. exact textual_dataflow. Qed.
 Print Assumptions C03_textual_dataflow.
 
+(* The argument string of a copy: the same sequential str.replace, applied to command.arguments written as
+   blank-separated tokens, rewrites exactly the tokens that are declared spellings (to the spelling of the
+   structured rewiring of that reference, second conjunct) and leaves every other token and every blank as it
+   is, under no_overlap and args_sep (no spelling is empty or contains a blank; every token either is a
+   spelling or contains none). *)
+Theorem C03_textual_arguments_replica : forall info c sc n i toks,
+  t_args c = join " " toks ->
+  no_overlap info i (s_refs sc) = true ->
+  args_sep (sorted_translation (repl_refs info (s_refs sc)) i) toks = true ->
+  o_args (replica_comp c (repl_refs info (s_refs sc)) n i) =
+    join " " (map (tok_spec (sorted_translation (repl_refs info (s_refs sc)) i)) toks) /\
+  forall r, In r (s_refs sc) ->
+    tok_spec (sorted_translation (repl_refs info (s_refs sc)) i) (spell r) = spell (rw_ref info i r).
+Proof.
+  intros info c sc n i toks Ht Hno Hsep. cbn [o_args replica_comp]. rewrite Ht.
+  exact (textual_args_replica info (s_refs sc) i toks Hno Hsep).
+Qed.
+Print Assumptions C03_textual_arguments_replica.
+
 (* non-vacuity: A (2 replicas, count via a variable) -> C (also reads B) -> aggregator D -> E *)
 Definition ex_wf : twf := {| w_gvars := [("n", "2")]%string; w_svars := []; w_comps := [
   {| t_stage := 0; t_name := "A"; t_refs := []; t_args := "hi"; t_rep := RVar "n"; t_agg := false; t_vars := [] |};
@@ -160,6 +179,11 @@ Example C03_nonvacuous :
     forallb (fun sc => agg_sep info (s_refs sc)) scs = true /\
     canonical_refs (w_comps ex_wf) scs = true /\ forallb (comp_guard info) scs = true /\
     rt_ok out = true /\
+    (* the copies of C: arguments "A:ref stage0.B/out.txt:copy" *)
+    forallb (fun c => negb (String.eqb (t_name c) "C") ||
+                      (args_sep (sorted_translation (repl_refs info (match parse_comp ex_wf c with Some sc => s_refs sc | None => [] end)) 1)
+                                (split_on " "%char (t_args c)) &&
+                       String.eqb (join " " (split_on " "%char (t_args c))) (t_args c))) (w_comps ex_wf) = true /\
     sedges_of out = [("stage0.A0", "stage0.C0"); ("stage0.B", "stage0.C0"); ("stage0.A1", "stage0.C1");
                      ("stage0.B", "stage0.C1"); ("stage0.C0", "stage1.D"); ("stage0.C1", "stage1.D");
                      ("stage1.D", "stage1.E")]%string /\
@@ -173,6 +197,7 @@ Proof.
   eexists. eexists. eexists.
   split; [vm_compute; reflexivity|].
   split; [repeat constructor; cbn; intuition discriminate|].
+  split; [vm_compute; reflexivity|].
   split; [vm_compute; reflexivity|].
   split; [vm_compute; reflexivity|].
   split; [vm_compute; reflexivity|].
